@@ -1908,12 +1908,12 @@ func opcodeHash256(op *ParsedOpcode, t *thread) error {
 	return nil
 }
 
-// opcodeCodeSeparator stores the current script offset as the most recently
+// opcodeCodeSeparator stores the script offset following the most recently
 // seen bscript.OpCODESEPARATOR which is used during signature checking.
 //
 // This opcode does not change the contents of the data stack.
 func opcodeCodeSeparator(op *ParsedOpcode, t *thread) error {
-	t.lastCodeSep = t.scriptOff
+	t.lastCodeSep = t.scriptOff + 1 // +1 to skip the opcode separator itself
 	return nil
 }
 
